@@ -179,14 +179,16 @@ def writers_of(prog, owner, field, crates=("marginfi", "marginfi_type_crate")):
     return out
 
 
-def defining_call(f, o, hops=0):
-    """Walk back from operand o through moves and pass-through adaptors (`?`, into, ok_or_else, unwrap ...)
-    to the call terminator that produced the value.  Returns (block, terminator) or None."""
-    if hops > 12:
+def defining_call(f, o, hops=0, path=()):
+    """Walk back from operand o through moves, tuple/struct construction + projection, and pass-through
+    adaptors (`?`, into, ok_or_else, unwrap ...) to the call terminator that produced the value.
+    Returns (block, terminator) or None."""
+    if hops > 16:
         return None
     p = op_place(o)
     if p is None:
         return None
+    path = tuple(e["f"] for e in p.get("p", []) if isinstance(e, dict) and "f" in e) + tuple(path)
     d = A.single_def(f, p["l"])
     if d is None:
         return None
@@ -195,15 +197,23 @@ def defining_call(f, o, hops=0):
         t = f.blocks[bi]["t"]
         ci = f.dinfo(t["res"]) if t.get("res") is not None else (f.dinfo(t["raw"]) if "raw" in t else None)
         nm = ci["name"] if ci else ""
-        if (nm in A.SAME_PATH_CALLS or nm in A.UNWRAP_CALLS) and t["args"]:
-            return defining_call(f, t["args"][0], hops + 1)
+        if nm in A.SAME_PATH_CALLS and t["args"]:
+            return defining_call(f, t["args"][0], hops + 1, path)
+        if nm in A.UNWRAP_CALLS and t["args"]:
+            return defining_call(f, t["args"][0], hops + 1, (0,) + path)
+        if path:
+            return None
         return (bi, t)
     s = f.blocks[bi]["s"][si]
     v = s["v"]
-    if v["r"] in ("use", "cast") or (v["r"] == "ref"):
-        if v["r"] == "ref":
-            return defining_call(f, {"c": v["pl"]}, hops + 1)
-        return defining_call(f, v["a"][0], hops + 1)
+    if s["d"].get("p"):
+        return None
+    if v["r"] in ("use", "cast"):
+        return defining_call(f, v["a"][0], hops + 1, path)
+    if v["r"] == "ref":
+        return defining_call(f, {"c": v["pl"]}, hops + 1, path)
+    if v["r"] == "agg" and path and v.get("ak") in ("tuple", "adt") and path[0] < len(v["a"]):
+        return defining_call(f, v["a"][path[0]], hops + 1, path[1:])
     return None
 
 
